@@ -95,6 +95,10 @@ class Merge(Expr):
             # This protects against recursion, no need to separate ands if the first
             # condition violates the join direction
             while isinstance(predicate, And):
+                if self._get_original_predicate_columns(predicate.right) is None:
+                    # The other conjunct would be evaluated on the rows that
+                    # survive this one, which changes a reduction
+                    return False
                 predicate = predicate.left
             predicate_columns = self._predicate_columns(predicate)
             if predicate_columns is None:
